@@ -82,7 +82,7 @@ def repair_num(x):
     return exact(format(Decimal(x).quantize(Decimal("0.000001")), "f"))
 
 
-# hazards of the value-level findings that are still open (F-C17f is classified structurally, see _only_deleted_service_parents); F-C17c (917b518), F-C17d (d511a4f) and F-C17e (86ebd6a) are fixed: nothing is repaired or
+# hazards of the findings that are still open (F-C17c..g are fixed: nothing of them is repaired, classified or suppressed); F-C17c (917b518), F-C17d (d511a4f) and F-C17e (86ebd6a) are fixed: nothing is repaired or
 # suppressed for them, a recurrence is a plain VIOLATION
 HAZ = {"F-C17a": "num", "F-C17b": "nul"}
 
@@ -108,7 +108,7 @@ class C17(StdCheck):
                          "emit_parse_roundtrip", "no_injection", "create_config_roundtrip", "faithful_attributes_partial",
                          "emit_parse_roundtrip_witness", "lexer_keyword_key_rejected", "bare_key_is_identifier_witness",
                          "create_all_or_nothing_partial", "activate_exception_counterexample",
-                         "delete_removes_object_and_file", "deleted_service_still_resolvable_counterexample", "cyclic_cascade_delete_counterexample", "refuse_non_api", "cascade_only_when_asked", "unique_names"]
+                         "delete_removes_object_and_file", "deleted_service_unresolvable_regression", "cyclic_cascade_delete_regression", "refuse_non_api", "cascade_only_when_asked", "unique_names"]
     technique = ("Lean 4 proof over a hand-written model of ConfigWriter, the config lexer/parser fragment and the create/delete state machine "
                  "(emit/parse round trip by mutual induction over the value tree and the statement list, invariant by induction over "
                  "operation sequences, kernel-evaluated counterexamples for the open defects); correspondence by differential execution of "
@@ -176,64 +176,6 @@ class C17(StdCheck):
         w[5] = enc_v(at2)
         return " ".join(w), found
 
-    @staticmethod
-    def _only_deleted_service_parents(lines):
-        """F-C17f: every successful create of the witness whose parents= names an object missing from its own objs= hangs on a
-        Service that an EARLIER line of the witness deleted successfully; at least one such create exists."""
-        deleted, hits = set(), 0
-        for l in lines:
-            pre, _, obs = l.partition(" | ")
-            w = pre.split()
-            kv = dict(t.split("=", 1) for t in obs.split() if "=" in t)
-            if w[:1] == ["delete"] and len(w) >= 3 and kv.get("ok") == "1":
-                deleted.add((w[1], w[2]))
-            if w[:1] == ["create"] and kv.get("ok") == "1" and kv.get("parents", "-") != "-":
-                live = {tuple(e.split(":")[:2]) for e in kv.get("objs", "").split(",") if ":" in e}
-                for par in kv["parents"].split(","):
-                    t = tuple(par.split(":")[:2])
-                    if len(t) == 2 and t not in live:
-                        if t[0] != "Service" or t not in deleted:
-                            return False
-                        hits += 1
-        return hits > 0
-
-    @staticmethod
-    def _crash_in_cyclic_cascade(lines):
-        """F-C17g: every X line of the witness is a cascading delete of an object from which, along the dependency edges the
-        witness's creates reported (child -> parents=), an object that depends on itself is reachable downwards."""
-        parents = {}
-        xs = []
-        for l in lines:
-            pre, _, obs = l.partition(" | ")
-            w = pre.split()
-            kv = dict(t.split("=", 1) for t in obs.split() if "=" in t)
-            if w[:1] == ["create"] and kv.get("ok") == "1" and kv.get("parents", "-") != "-":
-                parents[(w[1], w[2])] = {tuple(e.split(":")[:2]) for e in kv["parents"].split(",")}
-            if w[:1] == ["X"]:
-                xs.append(w[2:])
-        if not xs:
-            return False
-        children = {}
-        for c, ps in parents.items():
-            for pa in ps:
-                children.setdefault(pa, set()).add(c)
-
-        def down(start):
-            seen, todo = set(), list(start)
-            while todo:
-                x = todo.pop()
-                if x not in seen:
-                    seen.add(x)
-                    todo.extend(children.get(x, ()))
-            return seen
-        for w in xs:
-            if w[:1] != ["delete"] or len(w) < 4 or w[3] != "1":
-                return False
-            reach = down([(w[1], w[2])])
-            if not any(x in down(children.get(x, ())) for x in reach):
-                return False
-        return True
-
     def matches_known(self, entry, finding):
         if finding.kind != "spec":
             return False
@@ -242,10 +184,6 @@ class C17(StdCheck):
             return False
         base = m.group(1)
         lines = [l for l in finding.case_lines if l.split(" ")[0] in ("C", "create", "delete", "X")]
-        if entry["id"] == "F-C17g":
-            return base == "no_crash" and self._crash_in_cyclic_cascade(lines)
-        if entry["id"] == "F-C17f":
-            return base == "dangling_parent" and self._only_deleted_service_parents(lines)
         haz = HAZ.get(entry["id"])
         if not haz:
             return False
